@@ -300,7 +300,13 @@ func (f *Frame) closeLoop(li *loopInfo, st *State, cond string) {
 			if inv.Split > 0 {
 				if pcs := f.pathConds(c.curBlk, inv.Split); len(pcs) > 1 {
 					for k, pc := range pcs {
-						f.oblige(fmt.Sprintf("inv-keep%s/%s@path%d", inv.Tag(), f.loopName(li), k+1), inv, "(and "+cond+" "+pc+")", g)
+						if ob := f.oblige(fmt.Sprintf("inv-keep%s/%s@path%d", inv.Tag(), f.loopName(li), k+1), inv, "(and "+cond+" "+pc.cond+")", g); ob != nil {
+							ob.PathTail = pc.tail
+							ob.PathBlocks = map[*ssa.BasicBlock]bool{}
+							for _, pb := range pc.blocks {
+								ob.PathBlocks[pb] = true
+							}
+						}
 					}
 					continue
 				}
